@@ -1,35 +1,35 @@
 CONSTANTS
   Reward = 60000
   Maturity = 3
-  Slates = {"s1"}
+  Slates = {"s1", "s2"}
   Amounts = {1000}
-  NFund = 2
+  NFund = 1
   MaxH = 6
-  MaxLog = 1
+  MaxLog = 2
   UseLate = FALSE
   UseTtl = FALSE
   UseInvoice = FALSE
-  UseAccounts = FALSE
+  UseAccounts = TRUE
   UseMineTo = FALSE
   UseCancelBySlate = FALSE
   MaxAdv = 1
   MaxFork = 0
-  UseScan = TRUE
+  UseScan = FALSE
   UseAccounts2 = FALSE
   UseSelf = FALSE
-  FundAcct2 = FALSE
-  UseDiverge = TRUE
+  FundAcct2 = TRUE
+  UseDiverge = FALSE
   UseAdv = FALSE
 SPECIFICATION Spec
 INVARIANT TypeOK
+INVARIANT Inv_Exclusive
+INVARIANT Inv_Held
+PROPERTY Prop_Replay
+PROPERTY Prop_SelectAvoidsReserved
 PROPERTY Prop_Cancel
-PROPERTY Prop_Foreign
-PROPERTY Prop_Paths
-PROPERTY Prop_Ttl
 PROPERTY Prop_Books
 PROPERTY Prop_Isolation
-PROPERTY Prop_Scan
-PROPERTY Prop_RevertedRestored
+PROPERTY Prop_Paths
 PROPERTY EmitEdges
 CONSTRAINT Bound
 VIEW View
